@@ -62,4 +62,7 @@ def groups(tier, seed):
             gs.append(_clone(g, "host", {"CUTOFF": cut}, "cutoff%d" % cut))
     # unbounded: Strassen orchestration for every cutoff (and any default cutoff)
     gs += layer_s.strassen_groups(["C12"])
+    # the block-recursive PLE is selected by the cache-derived cutoff: its compression step under the stage contract (whole-word regime)
+    from checks import C13, carriers
+    gs += carriers.pick(C13.compress_groups(tier), ".196x258.", ".80x128.", prop="C12")
     return with_canaries(gs)
